@@ -11,6 +11,8 @@ from __future__ import annotations
 import itertools
 import signal
 
+from .. import impl
+
 PROPERTY = 'C16'
 LEVEL = 'model_checking'
 
@@ -340,7 +342,76 @@ def shard_hidden(m, items):
                 signal.setitimer(signal.ITIMER_REAL, 0)
 
 
+# Rule includes and based rules: the right hand side a rule parses is the included / base right hand side followed by its own
+# (docs/syntax.rst), so a left call may sit in another rule's text.  (grammar, rules on a left cycle)  — labelled by hand.
+FORM_GRAMMARS = [
+    ("pre: e '+' ;\n\ne: >pre t | t ;\n\nt: 't' ;", {'pre', 'e'}),
+    ("pre: [e '+'] ;\n\ne < pre: t ;\n\nt: 't' ;", {'pre', 'e'}),
+    ("pre: 't' ;\n\ne < pre: e '+' | () ;", set()),
+    ("pre: ['-'] ;\n\ne < pre: e '+' | 't' ;", {'e'}),
+    ("pre: 't' '+' ;\n\ne: >pre e | 't' ;", set()),
+    ("pre: ['-'] {'+'} ;\n\ne: >pre e 't' | 't' ;", {'e'}),
+    ("a: ['-'] ;\n\nb < a: ['+'] ;\n\nc < b: c 't' | 't' ;", {'c'}),
+    ("a: 't' ;\n\nb < a: ['+'] ;\n\nc < b: c 't' | () ;", set()),
+    ("a: ['-'] ;\n\nb < a: 't' ;\n\nc < b: c 't' | () ;", set()),
+    ("a: x 't' ;\n\nb < a: 't' ;\n\nx: >b | 't' ;", {'a', 'b', 'x'}),
+    ("a: 't' x ;\n\nb < a: 't' ;\n\nx: >b | 't' ;", set()),
+]
+
+
+def shard_forms(m, items):
+    import contextlib
+    import io
+    from tatsu.exceptions import GrammarError, ParseException
+    signal.signal(signal.SIGALRM, _alarm)
+    for text, cyc in items:
+        m.add('states')
+        m.add('evaluations')
+        try:
+            impl.compile_text('@@left_recursion :: False\n\n' + text)
+            raised = False
+        except GrammarError:
+            raised = True
+        except Exception as ex:  # noqa
+            m.violation(f'detection/forms/compile-raises-{type(ex).__name__}', grammar=text, error=str(ex)[:200])
+            continue
+        if raised != bool(cyc):
+            m.violation('detection/forms/' + ('missed-left-cycle' if cyc else 'false-left-cycle'), grammar=text, left_cycle_rules=sorted(cyc), raised=raised)
+        try:
+            model = impl.compile_text(text)
+        except Exception as ex:  # noqa
+            m.violation(f'detection/forms/compile-raises-{type(ex).__name__}', grammar=text, error=str(ex)[:200])
+            continue
+        if cyc:
+            m.add('nontrivial')
+        for r in model.rules:
+            if r.name not in cyc and (r.is_lrec or not r.is_memo):
+                m.violation('flags/forms/rule-off-cycle-marked', grammar=text, rule=r.name, is_lrec=r.is_lrec, is_memo=r.is_memo)
+        if cyc and not any(r.is_lrec for r in model.rules if r.name in cyc):
+            m.violation('flags/forms/cycle-without-leader', grammar=text, left_cycle_rules=sorted(cyc))
+        for r in model.rules:
+            for t in ['', 't', 't t', 't + t', '- t t', 't + t + t', 't t t t', '+', '- + t']:
+                m.add('evaluations')
+                m.add('transitions')
+                signal.setitimer(signal.ITIMER_REAL, 5.0)
+                try:
+                    with contextlib.redirect_stderr(io.StringIO()):
+                        model.parse(t, start=r.name)
+                except ParseException:
+                    pass
+                except RecursionError:
+                    m.violation('unbounded-recursion/forms', grammar=text, start=r.name, input=t)
+                except Watchdog:
+                    m.violation('hang/forms', grammar=text, start=r.name, input=t)
+                except Exception as ex:  # noqa
+                    m.violation(f'foreign-exception/forms/{type(ex).__name__}', grammar=text, start=r.name, input=t, error=str(ex)[:200])
+                finally:
+                    signal.setitimer(signal.ITIMER_REAL, 0)
+
+
 def run(rc):
+    rc.pmap(shard_forms, FORM_GRAMMARS, chunk=1)
+    rc.coverage['include_and_based_rule_grammars'] = len(FORM_GRAMMARS)
     hid = list(hidden_graphs(rc.tier))
     rc.pmap(shard_hidden, hid)
     rc.coverage['hidden_recursion_graphs'] = len(hid)
